@@ -7,7 +7,7 @@ ops (one answer line each, except `case`/`reg`/`end`):
   reg <padTarget> <tid>=<kind>;...       kind: O[<defaults>] | E[<members>] | C | H
   enc <value> [root=<hex>] [sg:<payload>=<ok:sig|err:Class>]...
   dec <hex> [k=<nokw|none|hex>] [p:<der>=<ok:hex|err:Class>]... [v:<key>:<sig>:<payload>=<ok|err:Class>]...
-  decs <hex> <n>                          n values one after another from one stream
+  decs <hex> <n> [k=..] [p:..]...         n values one after another from one stream
   rnd <16 hex>                            struct.pack(">f") of the double with these bits
 value syntax: n T F i<int> f<8hex> d<16hex> s<hex> y<hex> L[..] S[..] M[k:v,..] O<tid>[..]
               E<tid>[v] C<tid>[y<key>,v] H<tid>[y<root>,y<key>,salt,token] U
@@ -309,8 +309,8 @@ def stepLine (st : St) (line : String) : St × List String :=
         let env := mkEnv st (toks.foldl addOracle {})
         (st, [showDec bs (decodeC env (bs.length + 1) bs)])
       | none => (st, ["bad-hex"])
-  | ["decs", h, n] => match parseBytesExpr h, n.toNat? with
-      | some bs, some n => (st, [decMany (mkEnv st {}) n bs bs.length []])
+  | "decs" :: h :: n :: toks => match parseBytesExpr h, n.toNat? with
+      | some bs, some n => (st, [decMany (mkEnv st (toks.foldl addOracle {})) n bs bs.length []])
       | _, _ => (st, ["bad-op"])
   | ["rnd", h] => match fromHex h with
       | some bs => match roundF32 (beNat bs) with
